@@ -612,3 +612,19 @@ func scModCapSiblings(ps ParamSet, tmpls []Template, o AlphaOpts, depth, blocks,
 	sc.Rig.ReentrantCapSiblings = true
 	return sc
 }
+
+// scModSelfStart: S-MOD where the other module starts a context again from inside that context's failed response
+// callback (a batch that expired short of its threshold while the context was paused).
+var tModGap = Template{Name: "modgap", Consumer: "C1", Service: "a", Providers: []string{"P1", "P2"}, Cap: 5, Timeout: 1, Repeated: true, Freq: 3, Total: 3, Module: ModOther, Threshold: 2}
+
+func scModSelfStart(ps ParamSet, tmpls []Template, o AlphaOpts, depth, blocks, msgs int) *Scenario {
+	sc := scMod(ps, tmpls, o, depth, blocks, msgs)
+	sc.Name = "S-MOD(start in response callback)"
+	sc.Rig.ReentrantSelfStart = true
+	return sc
+}
+
+func modSelfStartRun(o []Oracle, mon MonFlags, d, b, m int) RunSpec {
+	return RunSpec{Name: "mod-start-in-response-callback", Sc: withFunds(scModSelfStart(paramSet("0.1", "0.001"), []Template{tModGap, tMod2},
+		AlphaOpts{RespKinds: []string{"ok"}, ModOps: []string{"mpause", "mstart"}}, d, b, m), 40, 5), Oracles: o, Mon: mon}
+}
